@@ -346,6 +346,9 @@ def check_step(ctx, cfg, seg, kind, nv, units, lr_expected, tags, wit):
         for vec, net in zip(ret["result"], nets):
             names = [n for n in step["grads"] if n.startswith(net + ".")]
             cat = torch.cat([step["grads"][n].reshape(-1) for n in names]) if names and all(step["grads"][n] is not None for n in names) else None
+            if cat is not None and isinstance(vec, torch.Tensor) and not bool(torch.isfinite(cat).all()):
+                ctx.count("non_finite_gradient_steps_seen")  # training diverged (huge lr): identity of NaNs is not an equality question
+                continue
             if cat is not None and isinstance(vec, torch.Tensor) and (vec.numel() != cat.numel() or not torch.equal(vec.reshape(-1), cat)):
                 ctx.violation("grad-write-back", f"{net}: the vector returned by compute_batch_gradients is not what the optimizer saw on the parameters",
                               tags=tags, witness=wit)
